@@ -307,6 +307,14 @@ pub enum Expr {
     Paren(Box<Expr>),
     TupleLit(Vec<Expr>),
     TupleIdx(Box<Expr>, usize),
+    /// lvalue-style access path: root variable followed by field / index steps
+    Path(u32, Vec<Step>),
+}
+
+#[derive(Clone, Debug, PartialEq)]
+pub enum Step {
+    Field(usize, usize),
+    Index(Box<Expr>),
 }
 
 #[derive(Clone, Debug, PartialEq)]
@@ -361,6 +369,8 @@ pub enum Stmt {
     SelfFieldSet { field: usize, e: Expr },
     SelfFieldAug { field: usize, op: BinOp, e: Expr },
     Match { scrut: Expr, arms: Vec<(Pat, Vec<Stmt>)>, style: ArmStyle },
+    /// `root.step.step <op>= e`
+    PathSet { root: u32, path: Vec<Step>, op: Option<BinOp>, e: Expr },
     Pass,
 }
 
@@ -623,7 +633,26 @@ impl<'a> Renderer<'a> {
             Expr::Paren(x) => format!("({})", self.expr(x)),
             Expr::TupleLit(xs) => format!("({})", xs.iter().map(|a| self.expr(a)).collect::<Vec<_>>().join(", ")),
             Expr::TupleIdx(t, i) => format!("{}.{}", self.expr(t), i),
+            Expr::Path(root, steps) => self.path(*root, steps),
         }
+    }
+
+    pub fn path(&self, root: u32, steps: &[Step]) -> String {
+        let mut o = self.names.get(&NameKey::Var(root));
+        for st in steps {
+            match st {
+                Step::Field(m, f) => {
+                    o.push('.');
+                    o.push_str(&self.names.get(&NameKey::Field(*m, *f)));
+                }
+                Step::Index(i) => {
+                    o.push('[');
+                    o.push_str(&self.expr(i));
+                    o.push(']');
+                }
+            }
+        }
+        o
     }
 
     fn block(&self, body: &[Stmt], ind: usize, out: &mut String) {
@@ -733,6 +762,10 @@ impl<'a> Renderer<'a> {
                         }
                     }
                 }
+            }
+            Stmt::PathSet { root, path, op, e } => {
+                let o = op.map(|o| o.text()).unwrap_or("");
+                out.push_str(&format!("{pad}{} {o}= {}\n", self.path(*root, path), self.expr(e)));
             }
             Stmt::Pass => out.push_str(&format!("{pad}pass\n")),
         }
@@ -1353,6 +1386,44 @@ impl<'a> Interp<'a> {
                 }
                 Err(Stop::Discard(Discard::Internal("non-exhaustive match".into())))
             }
+            Stmt::PathSet { root, path, op, e } => {
+                // index operands first (left to right), then the right-hand side; the generator keeps them pure
+                let mut idxs: Vec<Option<i64>> = Vec::new();
+                for st in path {
+                    match st {
+                        Step::Field(..) => idxs.push(None),
+                        Step::Index(i) => match self.eval(i, fr)? {
+                            Val::Int(k) => idxs.push(Some(k)),
+                            _ => return Err(Stop::Discard(Discard::Internal("path index".into()))),
+                        },
+                    }
+                }
+                let rhs = self.eval(e, fr)?;
+                let newv = match op {
+                    None => rhs,
+                    Some(o) => {
+                        let cur = self.eval(&Expr::Path(*root, path.clone()), fr)?;
+                        self.binop(*o, cur, rhs, None)?
+                    }
+                };
+                let mut slot: &mut Val = self.lookup_mut(fr, *root).ok_or(Stop::Discard(Discard::Internal("path root".into())))?;
+                for (st, ix) in path.iter().zip(idxs.iter()) {
+                    slot = match (st, slot) {
+                        (Step::Field(_, f), Val::Model(_, fs)) => &mut fs[*f],
+                        (Step::Index(_), Val::List(xs)) => {
+                            let i = ix.unwrap();
+                            let len = xs.len();
+                            match norm_index(len, i) {
+                                Some(k) => &mut xs[k],
+                                None => return Err(Stop::Panic("IndexError", format!("IndexError: index {i} out of range for list of length {len}"))),
+                            }
+                        }
+                        _ => return Err(Stop::Discard(Discard::Internal("path step".into()))),
+                    };
+                }
+                *slot = newv;
+                Ok(Flow::Next)
+            }
             Stmt::Pass => Ok(Flow::Next),
         }
     }
@@ -1820,6 +1891,28 @@ impl<'a> Interp<'a> {
                 Val::Tuple(xs) => Ok(xs[*i].clone()),
                 _ => Err(Stop::Discard(Discard::Internal("tuple idx".into()))),
             },
+            Expr::Path(root, steps) => {
+                let mut cur = self.lookup(fr, *root).cloned().ok_or(Stop::Discard(Discard::Internal("path root".into())))?;
+                for st in steps {
+                    cur = match (st, cur) {
+                        (Step::Field(_, f), Val::Model(_, fs)) => fs[*f].clone(),
+                        (Step::Index(i), Val::List(xs)) => {
+                            let k = match self.eval(i, fr)? {
+                                Val::Int(k) => k,
+                                _ => return Err(Stop::Discard(Discard::Internal("path index".into()))),
+                            };
+                            match norm_index(xs.len(), k) {
+                                Some(j) => xs[j].clone(),
+                                None => {
+                                    return Err(Stop::Panic("IndexError", format!("IndexError: index {k} out of range for list of length {}", xs.len())))
+                                }
+                            }
+                        }
+                        _ => return Err(Stop::Discard(Discard::Internal("path step".into()))),
+                    };
+                }
+                Ok(cur)
+            }
         }
     }
 }
